@@ -212,7 +212,7 @@ def check(prop, tier, seed):
     cov['transitions'] = sum(m.get('generated', 0) for m in ok_mc)
     cov['model_runs'] = [{k: v for k, v in m.items() if k not in ('output_tail',)} for m in mc_stats]
     cov['stimulus_classes'] = classes
-    cov['mechanism_drift_runs'] = ndrift
+    cov['mechanism_drift'] = f'{ndrift} runs differ from the Mechanism model prediction'
     cov['checker_cmd'] = 'tlc (MC_Framing*.cfg, Gen_Framing*.cfg, Trace_Framing.cfg) + harness/vh framing'
     cov['exhaustive'] = False
     rc = verdict.finish()
